@@ -249,6 +249,23 @@ def check(ctx):
                     and tm.is_const(e.data["value"]) and \
                     e.data["value"].args[1] == 0:
                 zeroed.append(idx.args[0].args[1])
+            # ... or for the whole stack at once: poses[:, k, 3] = 0
+            ALL_ = T("slice", tm.NONE, tm.NONE, tm.NONE)
+            if idx.op == "tuple" and len(idx.args) == 3 and \
+                    idx.args[0] is ALL_ and tm.is_const(idx.args[2], 3) and \
+                    tm.is_const(idx.args[1]) and \
+                    tm.is_const(e.data["value"]) and \
+                    e.data["value"].args[1] == 0:
+                zeroed.append(idx.args[1].args[1])
+        if not zeroed and not res.calls("evo.core.lie_algebra.so3_exp"):
+            # another construction of the planar poses altogether (the Euler
+            # angle re-derived from the matrix entries ...): not modelled —
+            # the summary of the vendored euler_from_matrix (A4) does not
+            # carry over to a re-implementation
+            ctx.undecidable("C14.1", f, f"Plane.{member}: the projected "
+                            f"poses are not built by zeroing pose[k, 3] and "
+                            f"so3_exp of the Euler angle")
+            continue
         ok = zeroed == [normal]
         ctx.ob("C14.1", f, ok,
                f"Plane.{member}: exactly the out-of-plane coordinate "
